@@ -1116,6 +1116,11 @@ func ParseByteRange(byteRange []byte, contentLength int) (startPos, endPos int, 
 		if err != nil {
 			return 0, 0, err
 		}
+		// a suffix range of zero bytes, or any suffix of an empty file, selects
+		// nothing: it is unsatisfiable (RFC 7233 section 2.1)
+		if v == 0 || contentLength <= 0 {
+			return 0, 0, fmt.Errorf("the suffix byte range %q cannot be satisfied for content length %d", byteRange, contentLength)
+		}
 		startPos := contentLength - v
 		if startPos < 0 {
 			startPos = 0
